@@ -431,11 +431,16 @@ class C06(RfProp):
     pid = "C06"
     coq_targets = ["Props/C06.vo"]
     faults = True
-    level_text = ("Coq theorems c06_reader_error (a reader error at any call is returned with its kind; nothing consumed; every byte delivered "
-                  "before it is retained), c06_restart (the state left by an error return re-enters the loop where it left: faults are invisible "
-                  "under retry, for any number and placement), c06_own_errors (InvalidData / UnexpectedEof leave the unread bytes intact and "
-                  "repeat), c06_reader_panic. Tie: a fault (5 error kinds, panic) at every reader-call index of every short scenario, random "
-                  "combinations; the retry checker compares against the fault-free chunk-free specification.")
+    level_text = ("Coq theorems c06_call_runs (every completed call of the translated read_frame is a run of the abstract loop whose only state is "
+                  "(unread bytes, reader state): calling again re-enters it), c06_faults_invisible (for any number and placement of transient "
+                  "faults the retrying caller ends as a run of the fault-free transport: same result, unread bytes, unpulled bytes, remaining "
+                  "chunks), c06_retrying_caller (the same end to end for the executable retry loop over the translated read_frame and any reader "
+                  "implementing the failing transport), c06_retry_gets_next (composed with C02: that loop returns exactly next(unread ++ unpulled) "
+                  "for a deframer honouring the documented contract), c06_error_keeps_everything (an error or Ok(None) result consumes nothing: the "
+                  "unread bytes afterwards extend those before), c06_own_error_repeats (InvalidData / UnexpectedEof leave the state intact and "
+                  "repeat), c06_panic (a reader/deframer panic leaves a usable buffer holding every byte received). GenEq/SrcC06.v restates the link "
+                  "and the retry theorem about the regenerated read_frame. Tie: a fault (7 error kinds, panic) at every reader-call index of every "
+                  "short scenario, random combinations; the retry checker compares against the fault-free chunk-free specification.")
     nontrivial_rule = ("C02's scenarios with a fault (InvalidData, UnexpectedEof, Interrupted, WouldBlock, TimedOut, ConnectionReset, Other, panic) injected at every "
                        "position of the reader-call sequence (singly, exhaustive for short scripts) and in random combinations, the caller "
                        "retrying after each error; non-trivial = at least one injected fault reached; distinct = distinct (case, trace)")
